@@ -267,4 +267,77 @@ theorem unmountCmd_one (cfg : Config) (d : Defs) (name : Bytes) (w : World) (hn 
       rw [hp]
       exact ⟨rfl, _, rfl⟩
 
+/-! ### no mount hidden: kept by everything `umount` does, and by a mount on a free target -/
+
+theorem fsUnmount_noHidden (tgt : Bytes) :
+    Holds (fun w => KernelResolve.NoHidden w.kt.mnts) (fsUnmount tgt) := by
+  unfold Holds
+  mvcgen [fsUnmount, gate, getW, setW, record, fail]
+  all_goals (try intros)
+  all_goals (first
+    | (simp_all (config := { zetaDelta := true }); done)
+    | skip)
+  all_goals
+    rename_i hk
+    exact kumount_noHidden (by simp_all (config := { zetaDelta := true })) hk
+
+theorem getL_holds' (I : World → Prop) (d : Defs) (n : Bytes) : Holds I (getL d n) := by
+  unfold Holds getL
+  split <;> mvcgen
+
+theorem unmountMounts_noHidden (ms : List MountType) :
+    Holds (fun w => KernelResolve.NoHidden w.kt.mnts) (unmountMounts ms) := by
+  induction ms with
+  | nil => rw [unmountMounts_nil]; exact pure_holds _ _
+  | cons m ms ih =>
+    rw [unmountMounts_cons]
+    have h1 := fsUnmount_noHidden m.mountpoint
+    unfold Holds at *
+    mvcgen [h1, ih]
+
+theorem unmountLayer_eq2 (cfg : Config) (d : Defs) (name : Bytes) :
+    unmountLayer cfg d name = (do
+      let l ← getL d name
+      if isBusy l false then return (.busy, d)
+      if l.mounts.length == 0 then return (.notMounted, d)
+      unmountMounts l.mounts.reverse
+      unmountTail cfg d name) := rfl
+
+/-- **`umount` never hides a mount**: on every exit of `unmountLayer` (normal, refused call,
+    injected fault) a kernel table without hidden mounts is still one -/
+theorem unmountLayer_noHidden (cfg : Config) (d : Defs) (name : Bytes) :
+    Holds (fun w => KernelResolve.NoHidden w.kt.mnts) (unmountLayer cfg d name) := by
+  rw [unmountLayer_eq2]
+  have h1 := getL_holds' (fun w => KernelResolve.NoHidden w.kt.mnts) d name
+  have h2 := unmountMounts_noHidden
+  have h3 := unmountTail_holds (fun w => KernelResolve.NoHidden w.kt.mnts) cfg d name
+  unfold Holds at *
+  mvcgen [h1, h2, h3]
+
+/-- **a mount(2) issued on a target below which nothing is mounted hides nothing** (and a
+    remount / propagation change never does): `sysMount` keeps "well-formed table without hidden
+    mounts" on both exits.  Layercake's own calls have such targets when the configured imports
+    name a mountpoint before the mountpoints below it and nothing foreign was mounted below
+    the build root in between (C01 `mountOne_targets_unmounted`: it never targets a mountpoint
+    its cached table shows). -/
+theorem sysMount_noHidden (src tgt fstype : Bytes) (flags : Nat) (data : Bytes) :
+    ⦃fun w => ⌜KTWF w.kt ∧ KernelResolve.NoHidden w.kt.mnts ∧
+        ((hasFlag flags MS_REMOUNT || (flags / 131072) % 16 != 0) = true ∨
+          (NoneBelow w.kt.mnts tgt ∧ CleanMps w.kt.mnts ∧ src ≠ []))⌝⦄
+    sysMount src tgt fstype flags data
+    ⦃post⟨fun _ w => ⌜KTWF w.kt ∧ KernelResolve.NoHidden w.kt.mnts⌝,
+          fun _ w => ⌜KTWF w.kt ∧ KernelResolve.NoHidden w.kt.mnts⌝⟩⦄ := by
+  mvcgen [sysMount, record, getW, setW, fail]
+  all_goals (try intros)
+  case vc1 =>
+    rename_i s hpre _ kt' hk
+    obtain ⟨h1, h2, h3⟩ := hpre
+    change kmount s.kt src tgt fstype flags data = .ok kt' at hk
+    rcases h3 with h3 | ⟨h3, h4, h5⟩
+    · rw [kmount_nonstructural_eq h3 hk]; exact ⟨h1, h2⟩
+    · exact ⟨kmount_KTWF _ _ _ _ _ _ _ h1 hk, kmount_noHidden_all _ _ _ _ _ _ _ h1 h2 h3 h4 h5 hk⟩
+  case vc2 =>
+    rename_i s hpre _ _ _
+    exact ⟨hpre.1, hpre.2.1⟩
+
 end Lc.UmountState
